@@ -8,7 +8,10 @@ RULE = ("cases = fixed corner cases (empty systems and shapes) + per ring (Z wit
         "diagonal entry, entry on the wrong side, non-square, shape mismatch), Schur complements of m x n matrices "
         "(m, n <= 10, r from 0 to min(m, n), boundary-biased, with and without transfer maps) and direct-sum "
         "decompositions of block-structured matrices hidden by random permutations (plus zero rows/columns, explicit "
-        "zeros glueing blocks, unstructured matrices); every case is executed in rayon pools of 1, 2 and 16 threads, "
+        "zeros glueing blocks, unstructured matrices; wide matrices with 35..80 columns forming a few stars with the hub "
+        "column last; and `decompw`: parametric matrices with 4000..10000-row hub columns, 8..32 stars of one-entry leaf "
+        "columns, too large for the nat-indexed model - there the implementation's sorted multiset of block shapes and "
+        "non-zero counts and the validity of the permutations are compared with the values the parameters determine); every case is executed in rayon pools of 1, 2 and 16 threads, "
         "5 times per pool on the same pool, and all 15 results must be identical (THREADS-DIFFER otherwise); results are "
         "compared as data (CSC structure including explicit zeros, permutations, blocks). A case is non-trivial when "
         "the implementation returned a result (no panic) that stores at least one entry; distinct = distinct case lines")
